@@ -193,7 +193,7 @@ def explore(task):
     return acc, stack
 
 
-def explore_parallel(pool, scn: Scenario, bound, deadline, procs=16, max_runs=120, group=6):
+def explore_parallel(pool, scn: Scenario, bound, deadline, procs=16, max_runs=120, group=6, total_cap=None):
     """Master: dynamic work splitting — a task runs at most `max_runs` schedules of its subtrees and
     returns the rest of its DFS stack, which is re-queued in groups."""
     from collections import deque
@@ -203,6 +203,9 @@ def explore_parallel(pool, scn: Scenario, bound, deadline, procs=16, max_runs=12
     inflight = []
     last = time.time()
     while pending or inflight:
+        if total_cap is not None and acc.runs >= total_cap and pending:
+            pending.clear()          # (quick tier: a fixed amount of work per scenario, whatever the machine)
+            acc.cut = True
         while pending and len(inflight) < 2 * procs:
             roots = pending.popleft()
             inflight.append(pool.apply_async(explore, ((sj, roots, bound, deadline, True, max_runs),)))
@@ -213,7 +216,7 @@ def explore_parallel(pool, scn: Scenario, bound, deadline, procs=16, max_runs=12
                 a, left = r.get()
                 acc.merge(a)
                 got = True
-                if time.time() < deadline:
+                if time.time() < deadline and (total_cap is None or acc.runs < total_cap):
                     for i in range(0, len(left), group):
                         pending.append(left[i:i + group])
                 elif left:
